@@ -130,21 +130,30 @@ def main(ctx):
                           json.dumps(e["res"]), json.dumps(e["S"]), e["formsok"]))
     # copies: the untouched side keeps the state, the mutated side is validated as an ordinary step
     cjobs = []
+    inlist = [o for o in mut if o["o"] == "set" and len(o["tok"]) >= 2 and o["tok"][0][1] >= 0]
     sample_states = [s for s in states if s][:60] if ctx.quick else [s for s in states if s][:400]
     for st in sample_states:
         for o in rng.sample(mut, 6):
             for deep in (False, True):
                 for side in ("copy", "orig"):
                     cjobs.append((st, o, deep, side))
+        if any(seg[1] >= 0 for e in st for seg in e["p"]):
+            # lists that also hold plain values next to their levels: assignments THROUGH a list element on one side of the copy
+            for o in rng.sample(inlist, min(len(inlist), 6)):
+                for deep in (False, True):
+                    for side in ("copy", "orig"):
+                        cjobs.append((st, o, deep, side, True))
     cres = core.pmap(ddlib.exec_copy, cjobs, chunksize=16)
     clines = []
     for r in cres:
         ev.case(key=("copy", json.dumps(r["from"]), r["o"]["key"], r["deep"], r["side"]), nontrivial=True)
         canon = lambda es: sorted(json.dumps(e, sort_keys=True) for e in es)
-        if not r["same"] or canon(r["other"]) != canon(r["from"]):
+        if not r["same"] or not r["indep"] or (not r["mixed"] and canon(r["other"]) != canon(r["from"])):
             ctx.violation("copy_%s" % r["o"]["key"], dict(r, op="copy"),
                           what="copy (deep=%s) not independent: mutating the %s with %s %r changed the other side to %s" % (
                               r["deep"], r["side"], r["o"]["o"], r["o"]["key"], json.dumps(r["other"])))
+        if r["mixed"]:
+            continue                    # (the mutated side of a mixed list is not a state of the model: independence only)
         clines.append({"fan": True, "from": r["from"], "ev": [{"o": r["o"], "ok": r["ok"], "res": ddlib.NOKEY, "S": r["S"],
                                                              "items": [], "selfok": True, "formsok": True}]})
     # mutated side: only state comparison (result values of pop/setdefault are checked in the main run)
